@@ -109,7 +109,7 @@ def gen_token(rng, allow_stretchy=False):
         v = 0.5
     bits = K.encode(cn, n, v)
     spell = rng.choice(['n', ':', ':', 'kw'])
-    mode = rng.choice(['pos', 'pos', 'eq', 'kwv'])
+    mode = rng.choice(['pos', 'pos', 'pos', 'eq', 'eq', 'kwv', 'kwv', 'bare'])      # bare: the token is just a keyword whose value is a bitstring
     if cn in ('bits', 'bytes'):
         mode = 'pos' if mode == 'eq' else mode
     if cn == 'bytes' and mode == 'kwv':
@@ -212,6 +212,11 @@ class Render:
             s = f'{name}:{n}' if not self.ws or self.rng.random() < 0.8 else f'{name} : {n}'
         if name == 'pad' or not self.with_values:
             return s
+        if t['mode'] == 'bare':
+            bname = t.setdefault('_bare', f'w{len(self.kw)}_{self.count}')
+            self.count += 1
+            self.kw[bname] = Bits(bin=t['bits']) if t['bits'] else Bits()
+            return bname
         if t['mode'] == 'eq':
             v = t['val']
             return f'{s}={v}' if not self.ws or self.rng.random() < 0.7 else f'{s} = {v}'
